@@ -195,6 +195,28 @@ namespace
       }
     sym_reach("end");
   }
+
+  // C20: linear models stay between their boundary temperatures and attain them at the model's own top and bottom
+  template <class M> void check_linear_env(unsigned long surf, unsigned long mode)
+  {
+    World *w; std::vector<Point<2>> coords; M *m = build<M>(w, coords, surf);
+    const Point<3> pos(sym_f64("x"), sym_f64("y"), sym_f64("z"), cartesian); const Objects::NaturalCoordinate nc(pos, *w->parameters.coordinate_system);
+    const double depth = sym_f64("depth"), old = sym_f64("Told"), g = sym_f64("gravity"), fmin = sym_f64("fmin"), fmax = sym_f64("fmax");
+    sym_assume(fmin >= 0 && fmax >= fmin && depth >= fmin && depth <= fmax);
+    sym_assume(m->operation == Operations::REPLACE && m->top_temperature >= 0 && m->bottom_temperature >= m->top_temperature);     // physically ordered end members
+    const double T = m->M::get_temperature(pos, nc, depth, g, old, fmin, fmax);
+    double lmin, lmax; const bool in = in_model_range(m, depth, surf, lmin, lmax);
+    if (!in) { sym_reach("end-out"); return; }
+    const double top_d = std::max(fmin, lmin), bot_d = std::min(fmax, lmax);
+    sym_assume(bot_d - top_d >= 1e-9);
+    if (mode == 0) sym_assert(T >= m->top_temperature && T <= m->bottom_temperature, "linear model stays between its two boundary temperatures");
+    else
+      {
+        if (depth == top_d) sym_assert(sym_eq(T, m->top_temperature), "linear model attains the top temperature at its own top");
+        if (depth == bot_d) sym_assert(sym_eq(T, m->bottom_temperature), "linear model attains the bottom temperature at its own bottom");
+      }
+    sym_reach("end");
+  }
 }
 
 #define FAMILIES(FN, KIND, MODEL, ...) \
@@ -208,3 +230,4 @@ extern "C" void h_c05_chapman_T(unsigned long surf) { check_chapman_T<CP::Temper
 extern "C" void h_c05_uniform_C(unsigned long family, unsigned long surf, unsigned long n) { FAMILIES(check_uniform_C, Composition, Uniform, surf, n) }
 extern "C" void h_c05_uniform_V(unsigned long family, unsigned long surf) { FAMILIES(check_uniform_V, Velocity, UniformRaw, surf) }
 extern "C" void h_c05_uniform_G(unsigned long family, unsigned long surf, unsigned long k) { FAMILIES(check_uniform_G, Grains, Uniform, surf, k) }
+extern "C" void h_c20_linear(unsigned long family, unsigned long surf, unsigned long mode) { FAMILIES(check_linear_env, Temperature, Linear, surf, mode) }
